@@ -67,13 +67,20 @@ def run(cells, irs, fn):
             if key == "raises":
                 raised += 1
                 continue
-            fails.setdefault(tuple(key), (cell, ir, what))
+            fails.setdefault(tuple(key) + (("shape=" + doc_shape(ir),) if doc_shape(ir) else ()), (cell, ir, what))
     return len(jobs), raised, fails
+
+
+def doc_shape(ir):
+    """Unusual shapes of the descriptions of an interface; kept apart from the failure class so that old findings still match"""
+    docs = [p.get("doc") or "" for p in (ir.get("params") or {}).values()] if isinstance(ir, dict) else []
+    return "multiline-doc" if any("\n" in d for d in docs) else ("colon-doc" if any(":" in d and not d.startswith("[") for d in docs) else "")
 
 
 def report(run_, prefix, fails, refuted_names=()):
     """Turn failure classes into violations / known findings"""
     for key, (cell, ir, what) in sorted(fails.items(), key=str):
-        cls = "|".join(str(k) for k in key)
-        run_.violation("%s/%s" % (prefix, key[0]), "[class %s] %s" % (cls, what), key={"class": cls},
+        shape = next((str(k)[6:] for k in key if str(k).startswith("shape=")), "")
+        cls = "|".join(str(k) for k in key if not str(k).startswith("shape="))
+        run_.violation("%s/%s" % (prefix, key[0]), "[class %s%s] %s" % (cls, (" / " + shape) if shape else "", what), key={"class": cls, "doc_shape": shape},
                        failing_input={"cell": list(cell) if isinstance(cell, (list, tuple)) else cell, "ir": json.loads(json.dumps(ir, default=str))})
